@@ -89,7 +89,7 @@ def c05_tables(w):
     # URI_REGEX: the set of single characters it lets through before / after '#'.
     rx = N.URI_REGEX
     body = [cp for cp in range(0, 0x3000) if rx.search("a" + chr(cp) + "a#a")]
-    frag = [cp for cp in range(0, 0x3000) if rx.search("#" + chr(cp))]
+    frag = [cp for cp in range(0, 0x3000) if rx.search("#a" + chr(cp) + "a")]
     w(f"def uriBodyChars : List Nat := {nats(body)}")
     w(f"def uriFragmentChars : List Nat := {nats(frag)}")
     w(f"def uriRegexPattern : List Char := {chars(rx.pattern)}")
